@@ -462,13 +462,6 @@ class Module(CanContainImportsDocumentable):
     kind = DocumentableKind.MODULE
     state = ProcessingState.UNPROCESSED
 
-    @property
-    def privacyClass(self) -> PrivacyClass:
-        if self.name == '__main__':
-            return PrivacyClass.PRIVATE
-        else:
-            return super().privacyClass
-
     def setup(self) -> None:
         super().setup()
 
@@ -1151,6 +1144,8 @@ class System:
         privacy = PrivacyClass.PUBLIC
         if ob.name.startswith('_') and \
                not (ob.name.startswith('__') and ob.name.endswith('__')):
+            privacy = PrivacyClass.PRIVATE
+        if isinstance(ob, Module) and ob.name == '__main__':
             privacy = PrivacyClass.PRIVATE
         
         # Precedence order: CLI arguments order
